@@ -403,6 +403,20 @@ fn main() {
         }
         vh_engine::iso::worker_main(TARGETS);
     }
+    if args.get(1).map(String::as_str) == Some("debug-tvfs") {
+        use cascette_formats::tvfs::TvfsFile;
+        let j: serde_json::Value = serde_json::from_str(&std::fs::read_to_string(&args[2]).unwrap()).unwrap();
+        let data = hex::decode(j["case"]["input"].as_str().unwrap()).unwrap();
+        let sum = |p: &TvfsFile| format!("{:?} path.data={} files={} vfs.data={} vfs={} cft.data={} cft={} est={:?}", p.header, p.path_table.data.len(), p.path_table.files.len(), p.vfs_table.data.len(), p.vfs_table.entries.len(), p.container_table.data.len(), p.container_table.entries.len(), p.est_table.as_ref().map(|e| (e.specs.len(), e.specs.iter().map(|s| s.len() + 1).sum::<usize>())));
+        let p1 = <TvfsFile as CascFormat>::parse(&data).unwrap();
+        println!("in len {}\np1: {}", data.len(), sum(&p1));
+        let b1 = p1.build().unwrap();
+        let p2 = <TvfsFile as CascFormat>::parse(&b1).unwrap();
+        println!("b1 len {}\np2: {}", b1.len(), sum(&p2));
+        let b2 = p2.build().unwrap();
+        println!("b2 len {}", b2.len());
+        return;
+    }
     if args.get(1).map(String::as_str) == Some("debug-root") {
         // developer aid: vh-c08 debug-root <replay.json>
         use cascette_formats::root::RootFile;
